@@ -45,6 +45,8 @@ def gen_corr(rng):
         j['range'] = rng.choice([[50.0, 3000.0], [min(Ts + [j['T_ref']]), max(Ts + [j['T_ref']])], [99.5, 1666.66]])
     elif rng.random() < 0.5:
         j['range'] = rng.choice([[100.0, 1500.0], [250.0, 1000.5]])
+    if rng.random() < 0.5:
+        j['mutate'] = rng.choice(['del_H', 'del_S', 'del_Cp', 'set_range'])
     return j
 
 
@@ -129,6 +131,14 @@ def run(ctx):
             hist['zero_or_missing_parts'] += 1
         if not r['unchanged']:
             ctx.violate(key + '|mutated', 'yaml_format modified the correlation', j, 'unchanged', None)
+        mu = r.get('mutated')
+        if mu and 'state' in mu:
+            hist['reformatted_after_change'] = hist.get('reformatted_after_change', 0) + 1
+            if 'after' not in mu:
+                if mu.get('exc') not in ('IncompleteDataError',):
+                    ctx.violate(key + '|reformat-exc:%s' % mu.get('exc'), 'formatting / loading after %s raised %s' % (mu['how'], mu.get('exc')), dict(j), 'text', mu)
+            else:
+                check_variant(ctx, key + '|after-' + mu['how'], j, mu['state'], {'units': r['variants'][0]['units'], 'after': mu['after'], 'text': mu.get('text')})
         for v in r['variants']:
             hist['variants'] += 1
             check_variant(ctx, key, j, b, v)
